@@ -228,7 +228,7 @@ def c11(tier):
                     {"k": "CyberCycle", "n": n}, {"k": "TrendFlex", "n": n}, {"k": "ReFlex", "n": n}]:
             loose = cfg["k"] in ("SuperSmoother", "RoofingFilter")      # the two accepted spellings of the angle differ by 1e-6
             big.append({"cfg": cfg, "unit": 10, "mode": "machine", "eps": [1, 100000] if loose else [1, 100000000], "float": "f64",
-                        "xs": walk(rnd, 400 if tier == "quick" else 2000, 100, 1000, 60), "k": 1 if tier == "quick" else 4})
+                        "xs": walk(rnd, 400 if tier == "quick" else (2000 if n <= 33 else 800), 100, 1000, 60), "k": 1 if tier == "quick" else 4})
     big.append({"cfg": {"k": "LaguerreFilter", "g": [4, 5]}, "unit": 10, "mode": "machine", "eps": [1, 100000000], "float": "f64",
                 "xs": walk(rnd, 150, 100, 1000, 60), "k": 1})
     for n in ((10, 16) if tier == "quick" else (10, 16, 20, 33)):
